@@ -27,7 +27,8 @@ FUNCTIONS = ['MIP.mip.cellcard.split', 'MIP.geom.parsegeom.normalize / get_ast',
 
 # ---------------------------------------------------------------- expression generation
 def leaves_pool():
-    return [('s', 1), ('s', -1), ('s', 2), ('s', -2), ('s', 3), ('s', -3), ('s', 12, 2), ('s', -12, 1), ('cell', 7), ('cell', 8)]
+    return [('s', 1), ('s', -1), ('s', 2), ('s', -2), ('s', 3), ('s', -3), ('s', 12, 2), ('s', -12, 1), ('cell', 7), ('cell', 8),
+            ('cell', 12), ('cell', 231)]       # cell numbers of several digits (digits that are also surface numbers)
 
 
 def all_exprs(nleaves, pool):
